@@ -46,6 +46,7 @@ const (
 	keySpillCtxPanic  = "C10:groupby:spill-foreign-context:panic-collect-union"
 	keySpillCtxColl   = "C10:groupby:spill-foreign-context:collect-union-of-mixed-types"
 	keySortedMissing  = "C10:groupby:declared-sorted:missing-and-null-keys:duplicate-group"
+	keySortedSpillNil = "C10:groupby:sorted-input-spill:panic-missing-primary-key"
 )
 
 func main() {
@@ -311,9 +312,11 @@ func checkAgg(c *Ctx, x aggCase) {
 	c.Stat("agg:fn:" + x.Fn)
 	c.Stat(fmt.Sprintf("agg:chunks:%d", len(x.Chunks)))
 	prog := "summarize r:=" + x.Fn + "(v)"
-	if x.Fn == "fuse" && fuseEmptyPartial(x) && os.Getenv("C10_CHILD") == "" {
-		// the partials-in stage panics inside the group-by goroutine (not recoverable
-		// in-process): run this case in a child process
+	if x.Fn == "fuse" && fuseEmptyPartial(x) && os.Getenv("C10_CHILD") == "" && inChild("fuse") {
+		// before the fix (findings: C10:agg:fuse:panic-empty-partial) the partials-in stage
+		// panicked inside the group-by goroutine, which cannot be recovered in-process: a few
+		// cases of this class are still run in a child process so that a regression is
+		// reported as a panic with its input rather than as a dead harness
 		runInChild(c, x, keyFusePanic)
 		return
 	}
@@ -325,9 +328,6 @@ func checkAgg(c *Ctx, x aggCase) {
 	}
 	fail := func(kind, how, what string) {
 		key := "C10:agg:" + x.Fn + ":" + how
-		if (x.Fn == "min" || x.Fn == "max") && typedNullClassChange(vals) && kind == "oracle" {
-			key = keyNullClass
-		}
 		c.Fail(kind, key, fmt.Sprintf("%s(v) over %s chunks %v: %s", x.Fn, short(x.Vals, 12), x.Chunks, what), x)
 	}
 	direct, err := runQuery(qopts{Prog: prog, Zctx: zctx, Inputs: [][]zed.Value{in}})
@@ -425,11 +425,10 @@ func checkAgg(c *Ctx, x aggCase) {
 		c.Fail("correspondence", "C10:agg:model-answer", fmt.Sprintf("model answered %s (%v %v)", ans, err1, err2), x)
 		return
 	}
-	explained := (x.Fn == "min" || x.Fn == "max") && typedNullClassChange(vals)
-	if mdc != realDirect && !explained {
+	if mdc != realDirect {
 		fail("correspondence", "model-direct", fmt.Sprintf("model %s, real %s", mdc, realDirect))
 	}
-	if mpc != realPart && !explained {
+	if mpc != realPart {
 		fail("correspondence", "model-partial", fmt.Sprintf("model %s, real %s", mpc, realPart))
 	}
 	if mdc != want {
@@ -469,7 +468,20 @@ func fuseEmptyPartial(x aggCase) bool {
 
 // runInChild re-executes this binary on one case; a crash of the child is a panic of the
 // real code (reported under crashKey), otherwise the child's failures are taken over.
-func runInChild(c *Ctx, x any, crashKey string) {
+func runInChild(c *Ctx, x any, crashKey string) { runInChildN(c, x, crashKey, 1) }
+
+// runInChildN repeats the run (the crash may depend on Go's map iteration order).
+func runInChildN(c *Ctx, x any, crashKey string, tries int) {
+	for i := 0; i < tries; i++ {
+		n := c.Res.Stats["fail:"+crashKey]
+		runInChild1(c, x, crashKey)
+		if c.Res.Stats["fail:"+crashKey] > n {
+			return
+		}
+	}
+}
+
+func runInChild1(c *Ctx, x any, crashKey string) {
 	dir, err := os.MkdirTemp("", "c10child-")
 	if err != nil {
 		c.Note("child: %v", err)
@@ -510,10 +522,20 @@ func firstLine(s string) string {
 // few cases of the classes that are known to crash the process are run; the rest of the
 // generated cases of those classes are turned into neighbouring non-crashing cases.
 var childBudget = 0
+var childLeft = map[string]int{}
+
+// inChild: the first few cases of a formerly crashing class go to a child process.
+func inChild(class string) bool {
+	if childLeft[class] > 0 {
+		childLeft[class]--
+		return true
+	}
+	return false
+}
 
 func runAgg(c *Ctx) {
 	r := c.Rng
-	childBudget = c.N(1, 25)
+	childLeft["fuse"] = c.N(1, 6)
 	n := c.N(200, 3000)
 	for i := 0; i < n; i++ {
 		fn := aggFns[r.Intn(len(aggFns))]
@@ -568,17 +590,6 @@ func runAgg(c *Ctx) {
 			x.Vals = append(x.Vals, gen())
 		}
 		x.Chunks = chunking(r, cnt, 1+r.Intn(5))
-		if fn == "fuse" && fuseEmptyPartial(x) {
-			if childBudget > 0 {
-				childBudget--
-			} else {
-				for j := range x.Vals {
-					if x.Vals[j] == "" {
-						x.Vals[j] = "{z:1}"
-					}
-				}
-			}
-		}
 		c.Stat("agg:class:" + cls)
 		if i < 2 {
 			c.Sample(x)
@@ -682,7 +693,9 @@ func checkGroupby(c *Ctx, x gbCase) {
 	}
 	prog := x.prog()
 	naive := naiveGroups(x.Keys, rows)
-	if os.Getenv("C10_CHILD") == "" && riskyGroupby(x, rows, len(naive)) {
+	if os.Getenv("C10_CHILD") == "" && riskyGroupby(x, rows, len(naive)) && inChild("groupby") {
+		// same for collect/union partials of several types read back from a spill
+		// (findings: C10:groupby:spill-foreign-context)
 		c.Stat("groupby:run-in-child")
 		runInChild(c, x, keySpillCtxPanic)
 		return
@@ -761,13 +774,7 @@ func checkGroupby(c *Ctx, x gbCase) {
 	if spill {
 		c.Stat("groupby:spill-possible")
 	}
-	sortedSpill := x.Sort != "" && spill
 	fail := func(key, w string) {
-		if sortedSpill {
-			key = keySpillCtxSorted
-		} else if spill && riskyGroupby(x, rows, len(naive)) {
-			key = keySpillCtxColl
-		}
 		c.Fail("oracle", key, what(w), x)
 	}
 	// read the real groups
@@ -848,15 +855,6 @@ func checkGroupby(c *Ctx, x gbCase) {
 		for i := range want {
 			if want[i] != g.cols[i] {
 				key := "C10:groupby:wrong-aggregate:" + x.Aggs[i].Fn
-				if fn := x.Aggs[i].Fn; fn == "min" || fn == "max" {
-					var vs []gval
-					for _, m := range members {
-						vs = append(vs, m.get(x.Aggs[i].Arg))
-					}
-					if typedNullClassChange(vs) {
-						key = keyNullClass
-					}
-				}
 				fail(key, fmt.Sprintf("group %v rows %v: real %s, naive %s", g.keys, g.ids, g.cols[i], want[i]))
 				return
 			}
@@ -897,6 +895,8 @@ func checkGroupby(c *Ctx, x gbCase) {
 		return
 	}
 	if dup {
+		// (declared sort key not the first key / missing and null keys in the declared
+		// sort column used to produce this: findings keySortNotFirst, keySortedMissing)
 		key := "C10:groupby:duplicate-group"
 		if x.Sort != "" && len(x.Keys) > 0 && !strings.HasPrefix(x.Sort, x.Keys[0].Out+":") {
 			key = keySortNotFirst
@@ -929,13 +929,13 @@ var aggMenu = []aggSpec{
 // sortRows orders rows on a key column the way the declared order says the input is
 // sorted: tie classes ascending/descending; nulls (and missing) are the largest values
 // (nullsMax), so last when ascending and first when descending.
-func sortRows(rows []grow, ks keySpec, desc bool) []grow {
+func sortRows(rows []grow, ks keySpec, desc bool, noMissing bool) []grow {
 	out := append([]grow(nil), rows...)
-	// The group-by compares primary keys without missing-as-null while every producer of
-	// sorted streams (sort, lake scan, merge) treats missing as null: with both present the
-	// declared order is ambiguous (a confirmed defect, see the witness).  Keep missing out of
-	// the declared sort column.
-	if ks.Expr != "a+1" {
+	// In sorted-input mode a spill whose last row has a missing primary key leaves
+	// maxSpillKey nil and the next release from the spill files dereferences it (panic in
+	// the group-by goroutine; findings keySortedSpillNil, replayed in a child process by the
+	// witness).  Where a spill can happen, keep missing out of the declared sort column.
+	if noMissing && ks.Expr != "a+1" && os.Getenv("C10_ALLOW_MISSING_SORT") == "" {
 		for i := range out {
 			if out[i].get(ks.Expr).Missing {
 				f := map[string]gval{}
@@ -1040,7 +1040,7 @@ func randSizes(r *rand.Rand, n int) []int {
 
 func runGroupby(c *Ctx) {
 	r := c.Rng
-	childBudget = c.N(2, 40)
+	childLeft["groupby"] = c.N(1, 6)
 	n := c.N(240, 3000)
 	for i := 0; i < n; i++ {
 		nk := 1 + r.Intn(3)
@@ -1088,35 +1088,27 @@ func runGroupby(c *Ctx) {
 		case mode < 4: // direct, input in random order
 		case mode < 7 && keys[0].Expr != "a+1": // declared sorted on the first key
 			desc := r.Intn(2) == 0
-			rows = sortRows(rows, keys[0], desc)
+			rows = sortRows(rows, keys[0], desc, x.Limit > 0)
 			x.Sort = keys[0].Out + ":asc"
 			if desc {
 				x.Sort = keys[0].Out + ":desc"
 			}
 			x.Sizes = randSizes(r, len(rows))
 			if r.Intn(25) == 0 && len(keys) > 1 && keys[1].Expr != "a+1" {
-				// declared sorted on a later key (known defect class)
-				rows = sortRows(perm(r, rows), keys[1], desc)
+				// declared sorted on a later key: the optimizer must not tell the group-by
+				rows = sortRows(perm(r, rows), keys[1], desc, x.Limit > 0)
 				x.Sort = keys[1].Out + strings.TrimPrefix(x.Sort, keys[0].Out)
 			}
 		default: // partial decomposition
 			x.Chunks = chunking(r, len(rows), 1+r.Intn(4))
 			x.Limit2 = pickLimit(r, distinct)
 			if r.Intn(3) == 0 && keys[0].Expr != "a+1" {
-				rows = sortRows(rows, keys[0], false)
+				rows = sortRows(rows, keys[0], false, x.Limit > 0)
 				x.Sort = keys[0].Out + ":asc"
 				x.Sizes = randSizes(r, 8)
 			}
 		}
 		x.Rows = rowsZSON(rows)
-		if riskyGroupby(x, rows, distinct) {
-			if childBudget > 0 {
-				childBudget--
-			} else {
-				x.Limit, x.Limit2 = 0, 0
-				c.Stat("groupby:defused-crash-class")
-			}
-		}
 		c.Stat("groupby:keyclass:" + strings.Join(classes, "+"))
 		c.Stat("groupby:valclass:" + vcl)
 		for _, a := range x.Aggs {
@@ -1473,7 +1465,7 @@ func runCorr(c *Ctx) {
 		case 0, 1, 2, 3:
 		case 4, 5, 6:
 			desc := r.Intn(2) == 0
-			rows = sortRows(rows, keys[0], desc)
+			rows = sortRows(rows, keys[0], desc, false)
 			x.Sort = "asc"
 			if desc {
 				x.Sort = "desc"
@@ -1827,6 +1819,15 @@ func runWitnesses(c *Ctx) {
 		checkAgg(c, aggCase{Fn: "min", Vals: []string{"null(uint64)", "5"}, Chunks: []int{2}})
 	})
 	expect(keyBigUint, func() { bigUintWitness(c) })
+	expect(keySortedSpillNil, func() {
+		// descending: missing/null first.  The first spill holds three rows with a missing
+		// primary key and one with key 7; when one of the former happens to be its last row
+		// (Go map order: 3 in 4) maxSpillKey stays nil, and the release at the end of the batch
+		// dereferences it when it reaches the row with key 7.
+		runInChildN(c, gbCase{Kind: "groupby", Keys: []keySpec{{"k1", "k1"}, {"k2", "k2"}}, Aggs: []aggSpec{{"c", "count", "", ""}},
+			Rows: []string{`{id:0,k2:"a"}`, `{id:1,k2:"b"}`, `{id:2,k2:"c"}`, `{id:3,k1:7,k2:"a"}`, `{id:4,k1:5,k2:"a"}`},
+			Limit: 4, Sort: "k1:desc", Sizes: []int{5}}, keySortedSpillNil, 6)
+	})
 	expect(keyFusePanic, func() {
 		checkAgg(c, aggCase{Fn: "fuse", Vals: []string{"{a:1}", ""}, Chunks: []int{1, 1}})
 	})
